@@ -1057,6 +1057,23 @@ def _is_exception(node: ast.AST) -> bool:
     return False
 
 
+def _loop_may_be_left(loop: ast.For | ast.While, types: Tuple[type, ...]) -> bool:
+    """Check if the body of a loop contains break (or continue) statements of that very loop."""
+    nodes = list(loop.body)
+    while nodes:
+        node = nodes.pop()
+        if isinstance(node, types):
+            return True
+        if isinstance(node, (ast.For, ast.AsyncFor, ast.While)):
+            # break and continue in the body of a nested loop belong to the nested loop, but
+            # in its else clause they belong to this loop.
+            nodes.extend(node.orelse)
+        elif not isinstance(node, (ast.FunctionDef, ast.AsyncFunctionDef, ast.ClassDef, ast.Lambda)):
+            nodes.extend(ast.iter_child_nodes(node))
+
+    return False
+
+
 def is_blocking(node: ast.AST, parent_type: ast.AST = None) -> bool:
     """Check if a node is impossible to get past.
 
@@ -1092,45 +1109,22 @@ def is_blocking(node: ast.AST, parent_type: ast.AST = None) -> bool:
         try:
             test_value = literal_value(node.test)
         except ValueError:
-            pass
-        else:
-            if not test_value:
-                return False
+            # The loop may run zero times
+            return False
 
-            for child in node.body:
-                if isinstance(child, ast.Break):
-                    return False
-                if is_blocking(child, type(node)):
-                    return True
+        # A loop with an always true condition can only be left by a break, return or exception
+        return bool(test_value) and not _loop_may_be_left(node, (ast.Break,))
 
     if isinstance(node, ast.For):
         try:
-            iterator = literal_value(node.iter)
-        except ValueError:
+            is_empty = not any(True for _ in literal_value(node.iter))
+        except (ValueError, TypeError):
             return False
-        if not any(True for _ in iterator):
+        if is_empty or _loop_may_be_left(node, (ast.Break, ast.Continue)):
             return False
 
-    if isinstance(node, (ast.For, ast.While)):
-        for child in node.body:
-            if is_blocking(child, type(node)):
-                return True
-            if is_blocking(child, parent_type):
-                return False
-            if isinstance(child, ast.If) and any(walk(child, (ast.Break, ast.Continue))):
-                try:
-                    test = literal_value(child.test)
-                except ValueError:
-                    return False
-                if test:
-                    return False
-
-        if isinstance(node, ast.For):
-            return False
-        try:
-            return literal_value(node.test)
-        except ValueError:
-            return False
+        # The first iteration runs the body from the top
+        return any(is_blocking(child, type(node)) for child in node.body)
 
     if isinstance(node, ast.With):
         return any(is_blocking(child, parent_type) for child in node.body)
